@@ -2248,6 +2248,8 @@ class SSHTunTapChannel(SSHForwardChannel[bytes]):
         """Strip off address family on incoming packets in TUN mode"""
 
         if self._mode == SSH_TUN_MODE_POINTTOPOINT:
+            # The sender was charged for the address family as well
+            self._consume_recv_window(4)
             data = data[4:]
 
         super()._accept_data(data, datatype)
